@@ -882,6 +882,110 @@ theorem c13_search_input_inside_box (bx bY bz : K) (teo clamp : Bool) (s : Sim (
 
 end stepinput
 
+/-! ## 8. ghost boxes -/
+section ghostbox
+variable {K : Type} [Field K] [LinearOrder K] [IsStrictOrderedRing K]
+
+/-- `(double)i` of the model is the integer cast -/
+theorem c13_ghostbox_int_cast (i : Int) : (ofI i : K) = (i : K) := by
+  unfold ofI
+  by_cases h : i < 0
+  · simp only [h, if_true, sc_neg, sc_ofNat]
+    obtain ⟨n, hn⟩ : ∃ n : Nat, i = -(n : Int) := ⟨i.natAbs, by omega⟩
+    subst hn
+    simp
+  · simp only [h, if_false, sc_ofNat]
+    obtain ⟨n, hn⟩ : ∃ n : Nat, i = (n : Int) := ⟨i.toNat, by omega⟩
+    subst hn
+    simp
+
+/-- `reb_boundary_get_ghostbox` for open and periodic boundaries: box `(i,j,k)` is the pure
+    translation by `(i·Lx, j·Ly, k·Lz)` with no velocity offset; boundary none gives the zero box. -/
+theorem c13_ghostbox_periodic (fmodF : K → K → K) (bx bY bz omega t : K) (i j k : Int) :
+    ghostBox fmodF .periodic bx bY bz omega t i j k = ⟨bx * i, bY * j, bz * k, 0, 0, 0⟩ ∧
+    ghostBox fmodF .open bx bY bz omega t i j k = ⟨bx * i, bY * j, bz * k, 0, 0, 0⟩ ∧
+    ghostBox fmodF .none bx bY bz omega t i j k = ⟨0, 0, 0, 0, 0, 0⟩ := by
+  simp [ghostBox, c13_ghostbox_int_cast]
+
+/-- mirror symmetry of the ghost boxes, all four boundary kinds: box `(-i,-j,-k)` is the negative
+    of box `(i,j,k)` — for the shearing sheet including the time dependent azimuthal shift and the
+    velocity offset `-(3/2)·i·Ω·Lx`, given that `fmod` is odd in its first argument (C99). -/
+theorem c13_ghostbox_mirror (fmodF : K → K → K) (hodd : ∀ a b, fmodF (-a) b = -fmodF a b)
+    (kind : BKind) (bx bY bz omega t : K) (i j k : Int) :
+    ghostBox fmodF kind bx bY bz omega t (-i) (-j) (-k) = negGB (ghostBox fmodF kind bx bY bz omega t i j k) := by
+  cases kind
+  · simp [ghostBox, negGB]
+  · simp [ghostBox, negGB, c13_ghostbox_int_cast]
+  · simp [ghostBox, negGB, c13_ghostbox_int_cast]
+  · rcases lt_trichotomy i 0 with hi | hi | hi
+    · have h1 : ¬ (-i = 0) := by omega
+      have h2 : (-i > 0) := by omega
+      have h3 : ¬ (i = 0) := by omega
+      have h4 : ¬ (i > 0) := by omega
+      simp only [ghostBox, negGB, c13_ghostbox_int_cast, beq_iff_eq, h1, h2, h3, h4, if_true, if_false, sc_neg, sc_hmul, sc_hdiv, sc_hsub, sc_hadd,
+        sc_ofNat, sc_zero, Int.cast_neg, GB.mk.injEq]
+      have e : -(3 / 2 : K) * -(i : K) * omega * bx * t - bY / 2 = -(-(3 / 2 : K) * (i : K) * omega * bx * t + bY / 2) := by ring
+      refine ⟨by ring, ?_, by ring, by simp, by push_cast; ring, by simp⟩
+      push_cast
+      rw [e, hodd]; ring
+    · subst hi
+      simp only [ghostBox, negGB, c13_ghostbox_int_cast, neg_zero, beq_self_eq_true, if_true, sc_neg, sc_hmul, sc_hdiv, sc_hsub, sc_hadd,
+        sc_ofNat, sc_zero, Int.cast_neg, Int.cast_zero, mul_zero, zero_mul, GB.mk.injEq]
+      have h0 : fmodF (0 : K) bY = 0 := by
+        have := hodd 0 bY; simp only [neg_zero] at this; linarith
+      refine ⟨by simp, ?_, by ring, by simp, by simp, by simp⟩
+      push_cast
+      simp only [mul_zero, zero_mul, h0]; ring
+    · have h1 : ¬ (-i = 0) := by omega
+      have h2 : ¬ (-i > 0) := by omega
+      have h3 : ¬ (i = 0) := by omega
+      have h4 : (i > 0) := by omega
+      simp only [ghostBox, negGB, c13_ghostbox_int_cast, beq_iff_eq, h1, h2, h3, h4, if_true, if_false, sc_neg, sc_hmul, sc_hdiv, sc_hsub, sc_hadd,
+        sc_ofNat, sc_zero, Int.cast_neg, GB.mk.injEq]
+      have e : -(3 / 2 : K) * -(i : K) * omega * bx * t + bY / 2 = -(-(3 / 2 : K) * (i : K) * omega * bx * t - bY / 2) := by ring
+      refine ⟨by ring, ?_, by ring, by simp, by push_cast; ring, by simp⟩
+      push_cast
+      rw [e, hodd]; ring
+
+/-- the ghost ring is closed under the mirror `(a,b,c) ↦ (-a,-b,-c)` -/
+theorem c13_ghost_ring_mirror (ngx ngy ngz : Int) (a b c : Int) :
+    (a, b, c) ∈ ghostRing ngx ngy ngz ↔ (-a, -b, -c) ∈ ghostRing ngx ngy ngz := by
+  rw [c13_ghost_ring, c13_ghost_ring]
+  constructor <;> rintro ⟨⟨h1, h2⟩, ⟨h3, h4⟩, ⟨h5, h6⟩⟩ <;> refine ⟨⟨?_, ?_⟩, ⟨?_, ?_⟩, ⟨?_, ?_⟩⟩ <;> omega
+
+/-- **the DIRECT test is symmetric under exchanging the two particles and mirroring the ghost
+    box**: `(i, j, gb)` passes iff `(j, i, -gb)` passes (same squared distance, same `d·dv`).
+    Together with `c13_ghostbox_mirror` and `c13_ghost_ring_mirror` this discharges the "seen from
+    both ends through mirrored ghost boxes" hypotheses of `c13_tree_search_complete`: the DIRECT
+    search reports every pair in both orientations. -/
+theorem c13_direct_symmetric (gb : GB K) (pi pj : Part K) :
+    directHit (shiftGB gb pi) pi.r pj = directHit (shiftGB (negGB gb) pj) pj.r pi := by
+  rw [Bool.eq_iff_iff, directHit_iff, directHit_iff]
+  simp only [shiftGB, negGB, sc_hadd, sc_neg]
+  constructor <;> rintro ⟨h1, h2⟩ <;> constructor <;> nlinarith [h1, h2]
+
+/-- the LINE test has the same symmetry: the straight-line minimum separation of the pair does not
+    depend on which particle carries the (mirrored) ghost box -/
+theorem c13_line_symmetric (dt : K) (gb : GB K) (pi pj : Part K) :
+    lineHit dt (shiftGB gb pi) pi.r pj = lineHit dt (shiftGB (negGB gb) pj) pj.r pi := by
+  have key : ∀ (q q' : LineQ K), q'.dx1 = -q.dx1 → q'.dy1 = -q.dy1 → q'.dz1 = -q.dz1 →
+      q'.dvx1 = -q.dvx1 → q'.dvy1 = -q.dvy1 → q'.dvz1 = -q.dvz1 → q'.r1 = q.r1 → q'.r2 = q.r2 →
+      lineRmin2Gen q' (lineTc q') (lineInRange dt (lineTc q')) = lineRmin2Gen q (lineTc q) (lineInRange dt (lineTc q)) := by
+    intro q q' a1 a2 a3 b1 b2 b3 c1 c2
+    have htc : lineTc q' = lineTc q := by
+      unfold lineTc
+      simp only [a1, a2, a3, b1, b2, b3, sc_hadd, sc_hmul, sc_hdiv, neg_mul_neg]
+    have hsep : ∀ τ, sep2 q' τ = sep2 q τ := by
+      intro τ; unfold sep2; rw [a1, a2, a3, b1, b2, b3]; ring
+    rw [lineRmin2Gen_eq, lineRmin2Gen_eq, htc, hsep, c1, c2]
+  have hq : lineRmin2 dt (shiftGB (negGB gb) pj) pi = lineRmin2 dt (shiftGB gb pi) pj := by
+    unfold lineRmin2
+    apply key <;> simp only [lineQ, shiftGB, negGB, sc_hadd, sc_hsub, sc_hmul, sc_neg] <;> ring
+  unfold lineHit
+  rw [hq, add_comm pj.r pi.r]
+
+end ghostbox
+
 /-! ## 6. hypotheses are satisfiable -/
 
 /-- a concrete instance of `c13_fixup_invariant`'s hypotheses: four particles, identities
@@ -903,5 +1007,10 @@ example {K : Type} [Field K] [LinearOrder K] [IsStrictOrderedRing K] :
     -- r₂₁ = (15, 12, 16): ρ = 20, y₂₁ₙ = 20, R = 25
     ct*20 = (12 : K) ∧ st*20 = (16 : K) ∧ cp*25 = (15 : K) ∧ sp*25 = ct*12 + st*16 := by
   refine ⟨?_, ?_, ?_, ?_, ?_, ?_⟩ <;> norm_num
+
+/-- an odd `fmod` exists (hypothesis of `c13_ghostbox_mirror`): C's `fmod` is odd in its first
+    argument; over ℚ-like fields e.g. `a ↦ a` itself -/
+example {K : Type} [Field K] : ∃ fmodF : K → K → K, ∀ a b, fmodF (-a) b = -fmodF a b :=
+  ⟨fun a _ => a, fun _ _ => rfl⟩
 
 end RV.Collision
